@@ -129,6 +129,33 @@ int main(int argc, char **argv) {
     char sym[64]; snprintf(sym, sizeof sym, "_%s_chk", fname);
     fn = (cmpfn)dlsym(L, sym); if (!fn) { fprintf(stderr, "missing %s\n", sym); return 2; }
     int isb = strstr(fname, "bcmp") != NULL;
+    if (argc >= 6 && !strcmp(argv[5], "huge")) {
+        /* result only (no trace): regions of n = 2^31 + 4096 / 2^32 + 4096 bytes whose first difference lies in the last page.  The object sizes are
+         * known to the library (unknown ones are limited to RSIZE_MAX_MEM).  Both regions are windows onto one 32 MiB memory file, the last window of the
+         * second region onto a copy with one byte changed. */
+        size_t nn = (n == 31 ? (size_t)1 << 31 : (size_t)1 << 32) + 4096, win = 32u << 20, span = (nn + win - 1) / win * win;
+        int fa = memfd_create("a", 0), fb = memfd_create("b", 0);
+        if (fa < 0 || fb < 0 || ftruncate(fa, win) || ftruncate(fb, win)) { fprintf(stderr, "memfd failed\n"); return 2; }
+        unsigned char *wa = mmap(NULL, win, PROT_READ | PROT_WRITE, MAP_SHARED, fa, 0), *wb = mmap(NULL, win, PROT_READ | PROT_WRITE, MAP_SHARED, fb, 0);
+        for (size_t i = 0; i < win; i++) wa[i] = wb[i] = (unsigned char)(i * 131 + (i >> 12));
+        size_t last = span - win, diff_at = nn - 1000; wb[diff_at - last] ^= 0x81;      /* b2 differs from b1 at offset n - 1000 only */
+        unsigned char *r1 = mmap(NULL, span, PROT_NONE, MAP_PRIVATE | MAP_ANONYMOUS | MAP_NORESERVE, -1, 0), *r2 = mmap(NULL, span, PROT_NONE, MAP_PRIVATE | MAP_ANONYMOUS | MAP_NORESERVE, -1, 0);
+        if (r1 == MAP_FAILED || r2 == MAP_FAILED) { fprintf(stderr, "cannot reserve %zu bytes twice\n", span); return 2; }
+        for (size_t off = 0; off < span; off += win) {
+            if (mmap(r1 + off, win, PROT_READ, MAP_SHARED | MAP_FIXED, fa, 0) == MAP_FAILED || mmap(r2 + off, win, PROT_READ, MAP_SHARED | MAP_FIXED, off == last ? fb : fa, 0) == MAP_FAILED) { fprintf(stderr, "window map failed\n"); return 2; } }
+        int want = wa[diff_at - last] < wb[diff_at - last] ? -1 : 1; long nviol = 0;
+        for (int sw = 0; sw < 2; sw++) {
+            int r = sw ? fn(r2, r1, nn, nn, nn) : fn(r1, r2, nn, nn, nn); int w = sw ? -want : want;
+            int bad = isb ? r == 0 : sgn(r) != w;
+            if (argc >= 7) printf("%s(%s, %s, n=%zu) with the only difference at offset %zu -> %d (expected %s)\n", fname, sw ? "b2" : "b1", sw ? "b1" : "b2", nn, diff_at, r, isb ? "non-zero" : w < 0 ? "negative" : "positive");
+            if (bad) { nviol++; if (nviol == 1 && argc < 7) printf("{\"t\":\"viol\",\"sig\":\"C19|%s|wrong-result|n=2^%d+4096\",\"case\":\"%s %d huge -\"}\n", fname, n, fname, n); }
+        }
+        /* and equal regions */
+        { int r = fn(r1, r1 + 0, nn, nn, nn); if (r != 0) { nviol++; if (argc < 7) printf("{\"t\":\"viol\",\"sig\":\"C19|%s|wrong-result|n=2^%d+4096,equal\",\"case\":\"%s %d huge -\"}\n", fname, n, fname, n); } }
+        if (argc >= 7) { printf(nviol ? "VERDICT violation\n" : "VERDICT ok\n"); return nviol ? 1 : 0; }
+        printf("{\"t\":\"stat\",\"fn\":\"%s\",\"n\":%d,\"contents\":3,\"traced\":3,\"distinct_traces\":1,\"instructions\":0,\"data_accesses\":0,\"violating\":%ld}\n", fname, n, nviol);
+        return 0;
+    }
     /* operands: each at the end of its own page pair; stack region */
     /* each operand region is 4 pages; the operand ends 1 page before the region's end (n <= 3 pages) */
     unsigned char *m = mmap(NULL, 12 * PG + stk_sz, PROT_READ | PROT_WRITE, MAP_PRIVATE | MAP_ANONYMOUS, -1, 0);
